@@ -26,11 +26,16 @@ package schema
 //@   requires o != nil
 //@   requires GvcBase(changes) == nil || (GvcBase(cs) != GvcBase(changes) && GvcBase(o.SkipChanges) != GvcBase(changes))
 //@   modifies elems(changes)
+//@   ensures result-is-the-argument-or-new-memory: GvcBase(r) == GvcBase(changes) || GvcFresh(r)
 //@   ensures prefix-kept: len(r) >= len(changes) && (forall i int :: 0 <= i && i < len(changes) ==> r[i] == old[Change](changes[i]))
 //@   ensures only-unskipped-from-cs: (forall j int :: len(changes) <= j && j < len(r) ==>
 //@           (exists i int :: 0 <= i && i < len(cs) && r[j] == old[Change](cs[i]) && !old[bool](GvcSkipped(o, cs[i]))))
 //@   ensures every-unskipped-added: (forall i int :: 0 <= i && i < len(cs) && !old[bool](GvcSkipped(o, cs[i])) ==>
 //@           (exists j int :: len(changes) <= j && j < len(r) && r[j] == old[Change](cs[i])))
+//@   ensures all-appended-in-order-when-no-kind-is-skipped: len(o.SkipChanges) == 0 ==>
+//@           len(r) == len(changes)+len(cs) && (forall i int :: 0 <= i && i < len(cs) ==> r[len(changes)+i] == old[Change](cs[i]))
+//@   loop 1 invariant len(o.SkipChanges) == 0 ==>
+//@           len(changes) == old(len(changes))+loopk && (forall i int :: 0 <= i && i < loopk ==> changes[old(len(changes))+i] == old[Change](cs[i]))
 //@   loop 1 invariant 0 <= loopk && loopk <= len(cs) && len(changes) >= old(len(changes))
 //@   loop 1 invariant GvcFresh(changes) || GvcBase(changes) == old(GvcBase(changes))
 //@   loop 1 invariant GvcElemsFrame(old(changes))
@@ -109,3 +114,17 @@ package schema
 //@   ensures sqlite-has-exactly-main: err == nil && GvcDynTypeIs(i, "*ariga.io/atlas/sql/sqlite.inspect") ==> len(r.Schemas) == 1 && r.Schemas[0].Name == "main"
 //@ extern func (i Inspector) InspectSchema(ctx context.Context, name string, opts *InspectOptions) (s *Schema, err error)
 //@   ensures err == nil ==> s != nil
+
+// ---------------------------------------------------------------------------------------
+// C02: name lookup used by the differ
+
+//@ func (t *Table) Column(name string) (c *Column, ok bool)
+//@   requires t != nil
+//@   requires (forall i int :: 0 <= i && i < len(t.Columns) ==> t.Columns[i] != nil)
+//@   pure
+//@   modifies nothing
+//@   ensures found-iff-a-column-has-the-name: ok == (exists i int :: 0 <= i && i < len(t.Columns) && t.Columns[i].Name == name)
+//@   ensures found-column-is-listed-under-the-name: ok ==> c != nil && c.Name == name && (exists i int :: 0 <= i && i < len(t.Columns) && t.Columns[i] == c)
+//@   ensures !ok ==> c == nil
+//@   loop 1 invariant 0 <= loopk && loopk <= len(t.Columns)
+//@   loop 1 invariant (forall i int :: 0 <= i && i < loopk ==> t.Columns[i].Name != name)
